@@ -555,7 +555,7 @@ def corpus5(per_family=30):
 def fam_static_self_ref(r):
     """static methods that call each other (or themselves) through the class"""
     c = r.choice(["MathBox", "util", "Helper_cls"])
-    m1, m2 = r.choice([("fact", "twice"), ("Fact", "twiceOf"), ("_fact", "__twice")])
+    m1, m2 = r.choice([("fact", "twice"), ("Fact", "twiceOf"), ("_fact", "_twice")])  # (no __names: they are mangled inside the class)
     return (f"class {c}:\n    @staticmethod\n    def {m1}(n):\n        return 1 if n < 2 else n * {c}.{m1}(n - 1)\n\n    @staticmethod\n    def {m2}(n):\n        return {c}.{m1}(n) * 2\n\n\n"
             f"def f(x, y):\n    return {c}.{m1}(abs(x) + 1), {c}.{m2}(abs(y) % 4)\n")
 
@@ -584,6 +584,67 @@ def corpus6(per_family=24):
     out = []
     for fam in FAMILIES6:
         r = random.Random("6:" + fam.__name__)
+        for _ in range(per_family):
+            out.append((fam(r) + HARNESS, fam.__name__))
+    return out
+
+
+# ------------------------------------------------------------------------------------------- seventh wave: found by observing the repository's own examples
+
+def fam_genexp_argument(r):
+    """a generator expression as the only argument of a call, in shapes rules like to replace"""
+    fn = r.choice(["sum", "sorted", "list", "max", "any", "tuple", "len_of"])
+    g = r.choice(["v for v in range(x % 4 + 1)", "v for v in range(4) if ()", "v for v in (w for w in range(3))", "v * 2 for v in range(3) if 1", "v for v in [y, x, 3]",
+                  "v for v in range(3) if v for w in () if False"])
+    return f"def len_of(it):\n    return len(list(it))\n\n\ndef f(x, y):\n    return {fn}({g}), {fn}(({g}))\n"
+
+
+def fam_multi_clause_comp(r):
+    """comprehensions with several clauses, one of which has a constant condition"""
+    c = r.choice(["False", "0", "()", "True", "1", "not []"])
+    v = r.randrange(4)
+    if v == 0:
+        return f"def f(x, y):\n    return [a for a in (1, 2) for b in (3,) if {c}]\n"
+    if v == 1:
+        return f"def f(x, y):\n    return [(a, b) for a in (1, x) if {c} for b in (3, y)]\n"
+    if v == 2:
+        return f"def f(x, y):\n    return {{a: b for a in (1, 2) if a for b in (x, y) if {c}}}\n"
+    return f"def f(x, y):\n    return sorted({{a + b for a in (x, 2) if {c} for b in (3, y) if b}})\n"
+
+
+def fam_extend_loop(r):
+    """loops that extend a container; in some the container depends on the loop variable"""
+    recv = r.choice(["d[k]", "d[k % 2]", "acc", "d[0]", "box.items", "d.setdefault(k, [])"])
+    return (f"class Box:\n    def __init__(self):\n        self.items = []\n\n\ndef f(x, y):\n    d = {{0: [], 1: [], 2: []}}\n    acc = []\n    box = Box()\n    for k in range(3):\n"
+            f"        {recv}.extend([k, x])\n    return d, acc, box.items\n")
+
+
+def fam_zip_unused(r):
+    """zip over iterables of different lengths where some positions are unused"""
+    a, b = r.choice([("'abc'", "'x'"), ("range(3)", "range(1, 3)"), ("[1, 2]", "[x, y, 3]"), ("(x, y)", "()")])
+    v = r.randrange(3)
+    if v == 0:
+        return f"def f(x, y):\n    out = []\n    for p, _ in zip({a}, {b}):\n        out.append(p)\n    return out\n"
+    if v == 1:
+        return f"def f(x, y):\n    return [1 for _, _ in zip({a}, {b})], [q for _, q in zip({a}, {b})]\n"
+    return f"def f(x, y):\n    n = 0\n    for _, _ in zip({a}, {b}):\n        n += 1\n    return n\n"
+
+
+def fam_dup_dict_keys(r):
+    """dict displays with duplicated constant keys"""
+    d = r.choice(["{'k': 1, 'j': x, 'k': 3}", "{1: 'a', True: 'b'}", "{1: x, 2: y, 1.0: 'z'}", "{'a': 1, 'a': 2}", "{x: 1, 'k': 2, 'k': 3, y: 4}"])
+    return f"def f(x, y):\n    d = {d}\n    return list(d.items())\n"
+
+
+FAMILIES7 = [fam_genexp_argument, fam_multi_clause_comp, fam_extend_loop, fam_zip_unused, fam_dup_dict_keys]
+
+
+def corpus7(per_family=24):
+    import random
+
+    out = []
+    for fam in FAMILIES7:
+        r = random.Random("7:" + fam.__name__)
         for _ in range(per_family):
             out.append((fam(r) + HARNESS, fam.__name__))
     return out
